@@ -343,3 +343,30 @@ func (s Shape) AlienPosition() string {
 	}
 	return "none"
 }
+
+// LongSweep: payloads around the 4096-byte block boundary and beyond, each
+// followed by further events (so that a reader consuming too much is noticed).
+func LongSweep() (bodies [][]byte, evs [][]refsmf.Event) {
+	for _, n := range []int{4095, 4096, 4097, 5000, 8192, 12288, 20000} {
+		for _, lead := range []byte{0xFF, 0xF0, 0xF7} {
+			pl := fill(n, byte(n))
+			body := []byte{0x00, 0x90, 0x3C, 0x40, 0x03}
+			var msg []byte
+			if lead == 0xFF {
+				body = append(body, 0xFF, 0x01)
+				body = append(body, refsmf.VLQ(uint32(n))...)
+				msg = refsmf.Meta(0x01, pl)
+			} else {
+				body = append(body, lead)
+				body = append(body, refsmf.VLQ(uint32(n))...)
+				msg = append([]byte{lead}, pl...)
+			}
+			body = append(body, pl...)
+			body = append(body, 0x02, 0x90, 0x3E, 0x41, 0x00, 0x3F, 0x42, 0x01, 0xFF, 0x2F, 0x00)
+			ev := []refsmf.Event{{0, []byte{0x90, 0x3C, 0x40}}, {3, msg}, {2, []byte{0x90, 0x3E, 0x41}}, {0, []byte{0x90, 0x3F, 0x42}}, {1, refsmf.EOT}}
+			bodies = append(bodies, body)
+			evs = append(evs, ev)
+		}
+	}
+	return
+}
